@@ -112,7 +112,9 @@ def r09(run):
             if isinstance(a, ast.Return):
                 v = a.value
                 facts = {(unparse(x), p) for x, p in fa.facts.atoms_at(n)}
-                exact = any(t.startswith(f"type({subj}) ==") and p for t, p in facts)
+                # the guard is the bare exact-type comparison, not a disjunction that also admits subclass instances
+                exact = any(p and isinstance(x, ast.Compare) and len(x.ops) == 1 and isinstance(x.ops[0], ast.Eq)
+                            and unparse(x.left) == f"type({subj})" for x, p in fa.facts.atoms_at(n))
                 if isinstance(v, ast.Name) and v.id == subj:
                     ok = exact and fa.rd.is_param_only(n, subj)
                     why = "returns the input without the exact-type guard"
